@@ -126,10 +126,50 @@ func c01StratumD(shard, n int, root *inproc.Root, visit func(stratum string, p P
 	rec(0, nil)
 }
 
+// stratum E: cmdline blocks over a word menu that includes markers, escaped markers and verbatim lines
+var c01CmdWords = []string{"a", "a.b", "a b", "a@", "a~", `a\@`, "'x|y", "''q'", "'[ab]+", "-1"}
+
+func c01StratumE(shard, n int, root *inproc.Root, visit func(stratum string, p Prog)) {
+	d := func(s string) []string { return []string{s} }
+	idx := 0
+	var rec func(start int, cur []string)
+	rec = func(start int, cur []string) {
+		if len(cur) > 0 {
+			for _, shell := range []string{"unix", "windows"} {
+				block := [][]string{d("##!> cmdline " + shell)}
+				for _, w := range cur {
+					block = append(block, d(w))
+				}
+				block = append(block, d("##!<"))
+				tpls := [][][]string{
+					block,
+					append(append([][]string{}, block...), d("c")),
+					append(append(append([][]string{d("##!> assemble"), d("p"), d("##!=>")}, block...), d("##!=>"), d("z"), d("##!<")), d("w")),
+				}
+				for _, t := range tpls {
+					if idx++; idx%n == shard {
+						visit("E", Prog{Lines: t})
+					}
+				}
+			}
+		}
+		if len(cur) == 3 {
+			return
+		}
+		for i := start; i < len(c01CmdWords); i++ {
+			rec(i+1, append(append([]string{}, cur...), c01CmdWords[i]))
+		}
+	}
+	rec(0, nil)
+}
+
 func C01(r *core.Run) {
-	extra := c01StratumD
+	extra := func(shard, n int, root *inproc.Root, visit func(stratum string, p Prog)) {
+		c01StratumD(shard, n, root, visit)
+		c01StratumE(shard, n, root, visit)
+	}
 	if r.Degraded() {
-		extra = nil
+		extra = c01StratumE
 	}
 	pc := progCheck{Name: "C01", Spec: c01Spec(r), Tree: c01Tree(), Eval: c01Eval, Extra: extra,
 		ConfSpec: sweepSpec{Tokens: entryTokens, One: 2, StructLen: 3, FullHdr: 1}}
@@ -156,7 +196,7 @@ func C01(r *core.Run) {
 	r.Cov["states"] = res.Stats.PStates
 	r.Cov["transitions"] = res.Stats.PTrans
 	r.Cov["inconclusive_pairs"] = res.Stats.Inconclusive
-	r.Cov["rule"] = "strata A (1 entry <= One tokens, 2 entries <= Two tokens, 3 single-token entries) x headers, B (all well-formed bodies of <= StructLen lines over the structural alphabet), C (every rewritten entry at 6 structural positions), D (every set of <= 4 of 12 words with shared prefixes/suffixes in 5 concatenation templates); states/transitions = product-automaton states/transitions summed over all (output, plain reading) pairs that were not byte-identical; non-trivial = output differs from the naive alternation of the entries"
+	r.Cov["rule"] = "strata A (1 entry <= One tokens, 2 entries <= Two tokens, 3 single-token entries) x headers, B (all well-formed bodies of <= StructLen lines over the structural alphabet), C (every rewritten entry at 6 structural positions), D (every set of <= 4 of 12 words with shared prefixes/suffixes in 5 concatenation templates), E (every set of <= 3 of 10 cmdline words incl. markers and verbatim lines x unix/windows x 3 templates); states/transitions = product-automaton states/transitions summed over all (output, plain reading) pairs that were not byte-identical; non-trivial = output differs from the naive alternation of the entries"
 	r.Cov["samples"] = []any{
 		Prog{Flags: "is", Prefix: "[xy]+", Suffix: `\b`, Lines: [][]string{{"a", "|", "b"}, {"[", "a-c", "]"}}}.Text(),
 		Prog{Lines: tokLines([]string{"##!> assemble", "a", "##!=>", "b|c", "##!<", "ab"})}.Text(),
